@@ -82,9 +82,7 @@ def build(shape, rng, variant, m0_variant):
     for k, s in enumerate(specs):
         text += MOLS[k % len(MOLS)]
         if s is not None:
-            t = fmt_float(s[1], rng.randrange(6))
-            if t.endswith("."):
-                t += "0"
+            t = fmt_float(s[1], rng.randrange(6))  # includes the spelling with a trailing dot: '.|1234.|' (Mixture docstring)
             text += ".|" + t + ("%" if s[0] == "pct" else "") + "|"
     return specs, M0, text
 
